@@ -1237,15 +1237,20 @@ pub const K: i8 = 7; pub const K8: u8 = 9; pub const SK: &str = "sk";
 pub struct Consts; impl Consts { pub const K: i8 = 5; pub const S: &'static str = "cs"; }
 pub mod m { pub const K8: u8 = 4; }
 pub fn f() -> i8 { 11 }
+pub trait Named { const NAME: &'static str; const SMALL: u8; }
+pub struct Tag; impl Named for Tag { const NAME: &'static str = "tag"; const SMALL: u8 = 3; }
 '''
 # (field type, [(attribute, expected Debug text)])
 C11_FIELDS = [
     ('i8', [('', '0'), ('#[default(3)]', '3'), ('#[default(-1)]', '-1'), ('#[default(K)]', '7'), ('#[default(Consts::K)]', '5'),
             ('#[default(f())]', '11'), ('#[default({ 1 + 1 })]', '2'), ('#[default(_)]', '0'), ('#[default]', '0'), ('#[default((K))]', '7'),
             ('#[default(K as i8)]', '7')]),
-    ('u16', [('', '0'), ('#[default(K8)]', '9'), ('#[default(m::K8)]', '4'), ('#[default(300)]', '300')]),
+    ('u16', [('', '0'), ('#[default(K8)]', '9'), ('#[default(m::K8)]', '4'), ('#[default(300)]', '300'), ('#[default(<Tag as Named>::SMALL)]', '3'),
+             ('#[default(self::K8)]', '9'), ('#[default(crate::K8)]', '9')]),
     ('String', [('', '""'), ('#[default("s")]', '"s"'), ('#[default(SK)]', '"sk"'), ('#[default(Consts::S)]', '"cs"'),
-                ('#[default(String::from("x"))]', '"x"'), ('#[default(r"raw")]', '"raw"')]),
+                ('#[default(String::from("x"))]', '"x"'), ('#[default(r"raw")]', '"raw"'),
+                # a path with a qualified self is a path: converted with Into
+                ('#[default(<Tag as Named>::NAME)]', '"tag"'), ('#[default(::core::primitive::str::as_ref("q"))]', '"q"') if False else ('#[default(<Tag as Named>::NAME)]', '"tag"')]),
     ('bool', [('', 'false'), ('#[default(true)]', 'true')]),
     ('char', [('#[default(\'c\')]', "'c'")]),
     ('Option<i8>', [('', 'None'), ('#[default(Some(1))]', 'Some(1)')]),
@@ -1279,10 +1284,12 @@ def gen_c11_program(seed, start, count):
             nv = rng.choice([1, 2, 3])
             dv = rng.randrange(nv)
             vs = []
+            vkinds = []
             want = ''
             type_level = rng.random() < 0.15
             for v in range(nv):
                 kind = rng.choice(['unit', 'tuple', 'named'])
+                vkinds.append(kind)
                 nf = 0 if kind == 'unit' else rng.choice([0, 1, 2, 3])
                 decl, exp = mk(kind, nf)
                 mark = ''
@@ -1294,6 +1301,17 @@ def gen_c11_program(seed, start, count):
                     if kind == 'tuple' and nf == 0:
                         want = vnames[v]
             tl = ''
+            if type_level and nv > 1 and rng.random() < 0.5:
+                # the type-level value wins even over a variant marked `#[default]`
+                other = (dv + 1) % nv
+                if not vs[dv].startswith('#[default'):
+                    vs[dv] = rng.choice(['#[default] ', '#[default(_)] ']) + vs[dv]
+                # pick a unit variant other than the marked one if there is one, else a function building the marked one's sibling
+                uv = [i for i in range(nv) if i != dv and vkinds[i] == 'unit']
+                if uv:
+                    tl = f'#[default(Self::{vnames[uv[0]]})] '
+                    want = vnames[uv[0]]
+                    type_level = False
             if type_level:
                 # a unit variant chosen by the type-level value wins over everything
                 uv = [i for i, x in enumerate(vs) if x.strip().split('(')[0].split('{')[0].strip() in vnames and '(' not in x and '{' not in x]
